@@ -31,7 +31,7 @@ func JoinHostPort(host, port string) string { return net.JoinHostPort(host, port
 func SplitHostPort(hostport string) (host, port string, err error) {
 	return net.SplitHostPort(hostport)
 }
-func ParseIP(s string) IP { return net.ParseIP(s) }
+func ParseIP(s string) IP     { return net.ParseIP(s) }
 func IPv4(a, b, c, d byte) IP { return net.IPv4(a, b, c, d) }
 func ResolveUDPAddr(network, address string) (*UDPAddr, error) {
 	return net.ResolveUDPAddr(network, address)
